@@ -79,10 +79,11 @@ MCCells == <<
     Ce("date", 1, 0, 0, 0), Ce("date", 2, 0, 0, 0),
     Ce("time", 1, 0, 0, 0), Ce("time", 2, 0, 0, 0),
     Ce("dt", 1, 0, 0, 0), Ce("dt", 2, 0, 0, 0), Ce("dt", 3, 0, 0, 0),
+    Ce("dt", 4, 0, 0, 0), Ce("dt", 5, 0, 0, 0),      \* the instants of 1 and 3 in other zones: other cell contents
     Ce("coord", 0, 1500000, 2500000, 0), Ce("coord", 0, 1500002, 2500000, 0), Ce("coord", 0, 1500000, 2500002, 0),
     Ce("list", 1, 0, 0, 0), Ce("list", 2, 0, 0, 0), Ce("dict", 1, 0, 0, 0) >>
 
-MCNonGrids == <<MCCells[1], MCCells[2], MCCells[7], MCCells[18], MCCells[38], MCCells[40]>>
+MCNonGrids == <<MCCells[1], MCCells[2], MCCells[7], MCCells[18], MCCells[40], MCCells[42]>>
 
 G1x1(x) == [meta |-> {}, cols |-> <<1>>, cm |-> <<{}>>, rows |-> << <<MCCells[x]>> >>]
 \* a 2 x 2 grid with metadata on the grid and on one column; background cells of assorted kinds
